@@ -35,10 +35,8 @@ REPO = os.environ.get("VERIF_REPO", "/repo")
 TMP = tempfile.mkdtemp(prefix="c09_")
 _counter = [0]
 
-T_UNDERSCORE = "C09-label-underscore"
-T_NONWORD = "C09-label-nonword"
-T_EXTVEC = "C09-extend-scalar-vector"
-T_UNITSEP = "C09-unit-separator"
+T_UNITWS = "C09-unit-whitespace"     # known finding: units with white space cannot be stored
+T_BRACES = "C09-label-braces"        # optional stream (VERIF_C09_BRACES=1): the reader strips { and }
 
 CHECK = {4: 1234567.0, 8: 123456789012345.0}
 REPS = ["bin8", "bin4", "txt"]
@@ -60,7 +58,7 @@ def _tokens(text):
             j = text.find("}", i)
             if j < 0:
                 j = n
-            out.append(text[i + 1:j])
+            out.append(text[i:j + 1])     # the group keeps its braces, like the token of the format
             i = j + 1
         else:
             j = i
@@ -288,7 +286,7 @@ def word_label(s):
 
 # =============================================================== generators
 MUNITS = ["m", "nm", "um", "s", "a.u."]
-FUNITS = [None, None, "A/m", "T", "J/m3", "1", "rad", "", "µT", "V*s"]
+FUNITS = [None, None, "A/m", "T", "J/m3", "1", "rad", "", "µT", "V*s", "a:b", "kg*m^2:s"]
 LABEL_POOLS = [
     ["a", "b", "c", "d", "e"], ["mx", "my", "mz", "mw", "mv"], ["x", "y", "z", "t", "u"],
     ["z", "y", "x", "w", "v"], ["u1", "u2", "u3", "u4", "u5"], ["Bx", "By", "Bz", "Bt", "Bu"],
@@ -297,7 +295,8 @@ LABEL_POOLS = [
 US_POOLS = [["m_x", "m_y", "m_z", "m_w", "m_v"], ["a_1", "b_2", "c_3", "d_4", "e_5"],
             ["x_", "y_", "z_", "w_", "v_"], ["_a", "_b", "_c", "_d", "_e"]]
 NONWORD_POOLS = [["a-b", "c", "d", "e", "f"], ["m.x", "m.y", "m.z", "m.w", "m.v"], ["a+", "b+", "c+", "d+", "e+"]]
-SEP_UNITS = ["a:b", "A / m", "kg m^2"]
+WS_UNITS = ["A / m", "kg m^2", "A\tm"]
+BRACE_POOLS = [["{a}", "b", "c", "d", "e"], ["a}b", "c", "d", "e", "f"]]
 
 F32_EDGES = [2.0 ** -149, 2.0 ** -150, 3 * 2.0 ** -150, 2.0 ** -151, 2.0 ** -126, 2.0 ** -126 * (1 - 2.0 ** -24),
              (2 - 2.0 ** -23) * 2.0 ** 127, (2 - 2.0 ** -24) * 2.0 ** 127, (2 - 2.0 ** -25) * 2.0 ** 127, 2.0 ** 128,
@@ -399,7 +398,9 @@ def gen_field(rng, tier, exact=None, nv=None, labels="word", unit="std", vcls=No
             vd = rng.choice(US_POOLS)[:nv]
         elif labels == "nonword":
             vd = rng.choice(NONWORD_POOLS)[:nv]
-    u = rng.choice(FUNITS) if unit == "std" else rng.choice(SEP_UNITS)
+        elif labels == "braces":
+            vd = rng.choice(BRACE_POOLS)[:nv]
+    u = rng.choice(FUNITS) if unit == "std" else rng.choice(WS_UNITS)
     vcls = vcls or rng.choice(["small", "full", "full", "edge", "decimal", "index"])
     vals = gen_values(rng, n[0] * n[1] * n[2] * nv, vcls)
     if subs is None:
@@ -476,7 +477,8 @@ def generate(rng, tier):
     for i in range(12 if quick else 60):
         f = gen_field(rng, tier, vcls="index", exact=True)
         cases.append(dict(kind="round", field=f, rep=REPS[i % 3], extend=False))
-    # streams that exercise the deviations found while building (tagged)
+    # labels with underscores / non-word characters, extend_scalar on vector fields (repaired in
+    # /repo: ordinary cases now); units with white space (known finding, small stream)
     for i in range(6 if quick else 30):
         f = gen_field(rng, tier, nv=rng.choice([2, 3, 4]), labels="underscore")
         cases.append(dict(kind="round", field=f, rep=REPS[i % 3], extend=False))
@@ -486,9 +488,13 @@ def generate(rng, tier):
     for i in range(6 if quick else 30):
         f = gen_field(rng, tier, nv=rng.choice([2, 3, 4]), maxn=3)
         cases.append(dict(kind="round", field=f, rep=REPS[i % 3], extend=True))
-    for i in range(3 if quick else 15):
-        f = gen_field(rng, tier, unit="sep", maxn=2)
+    for i in range(3 if quick else 6):
+        f = gen_field(rng, tier, unit="ws", maxn=2)
         cases.append(dict(kind="round", field=f, rep=REPS[i % 3], extend=False))
+    if os.environ.get("VERIF_C09_BRACES", "1") != "0":
+        for i in range(3):
+            f = gen_field(rng, tier, nv=2, labels="braces", maxn=2)
+            cases.append(dict(kind="round", field=f, rep=REPS[i % 3], extend=False))
     # malformed writer input
     for i in range(4 if quick else 20):
         f = gen_field(rng, tier, maxn=2)
@@ -772,23 +778,19 @@ def oracle_written(fc, rep, extend, a, first_line):
 
 def tags_for(fc, extend):
     tags = []
-    if fc["nv"] > 1 and fc["vdims"]:
-        if any("_" in c for c in fc["vdims"]):
-            tags.append(T_UNDERSCORE)
-        if any(not word_label(c) for c in fc["vdims"]):
-            tags.append(T_NONWORD)
-    if extend and fc["nv"] > 1:
-        tags.append(T_EXTVEC)
-    if fc["unit"] and (":" in fc["unit"] or any(ch.isspace() for ch in fc["unit"])):
-        tags.append(T_UNITSEP)
+    if fc["unit"] and any(ch.isspace() for ch in fc["unit"]):
+        tags.append(T_UNITWS)
+    if fc["nv"] > 1 and fc["vdims"] and any("{" in c or "}" in c for c in fc["vdims"]):
+        tags.append(T_BRACES)
     return tags
 
 
 def coq_representable(fc):
-    """inputs whose abstract form (token lists) is what the model works on"""
-    if fc["vdims"] and any(not word_label(c) for c in fc["vdims"]):
+    """inputs whose abstract form (token lists) is what the model works on: a unit with white
+    space is several tokens in the file but one string in the field"""
+    if fc["unit"] and any(ch.isspace() for ch in fc["unit"]):
         return False
-    if fc["unit"] and (":" in fc["unit"] or any(ch.isspace() for ch in fc["unit"]) or "#" in fc["unit"]):
+    if fc["vdims"] and any(any(ch.isspace() for ch in c) for c in fc["vdims"]):
         return False
     return strings_ok(fc["vdims"], fc["unit"], fc["munit"])
 
@@ -988,8 +990,7 @@ def run_read(case):
     either = must_reject is None
     if a is not None and a["meshunit"] is not None and strings_ok(a["labels"], a["units"], a["meshunit"]) \
             and not (either and st != "ok") \
-            and not any(math.isnan(x) or math.isinf(x) for x in a["payload"]) \
-            and not (a["labels"] and any(not re.fullmatch(r"[\w ]+", t) for t in a["labels"])):
+            and not any(math.isnan(x) or math.isinf(x) for x in a["payload"]):
         gobs = "None" if st != "ok" else None
         try:
             if gobs is None:
